@@ -1,6 +1,6 @@
 """C16 - runs terminate with well-formed results and never hide a failed step.
 Fault enumeration over solve indices (DESIGN.md section 4, C16)."""
-from .. import gen, oracles, runsim, world, taps
+from .. import gen, oracles, runsim, world, taps, inv
 from ..oracles import V
 from ..rng import Rng, derive
 from .base import Prop, verdict, bump, event_kinds, ngrams
@@ -95,7 +95,11 @@ class C16(Prop):
             if isinstance(ref.exc, taps.WsimStepCap):
                 viol.append(V('terminates', 'stepcap', str(ref.exc)))
             else:
-                viol.append(V('faultfree.raised', '%s@%s' % (type(ref.exc).__name__, ref.exc_site), ref.exc_tb[-600:]))
+                sig = '%s@%s' % (type(ref.exc).__name__, ref.exc_site)
+                und = inv.undetermined_heads(scn, getattr(rec0, 'wn', None))
+                if und and 'number of constraints and variables' in str(ref.exc):
+                    sig += ':head_in_no_equation'      # the known finding: a junction whose head no equation mentions
+                viol.append(V('faultfree.raised', sig, ('junctions whose head is in no equation: %r | ' % (und,) if und else '') + ref.exc_tb[-600:]))
             return verdict('violation', viol, c, rec0.digest(), sample=world.summary(scn))
         res0 = ref.results
         accepted = [s['t'] for s in rec0.steps]
@@ -219,8 +223,27 @@ class C16(Prop):
             if out.exc is not None:
                 return [V('rescued.raised', '%s.%s@%s' % (label, type(out.exc).__name__, out.exc_site), out.exc_tb[-500:])]
             full = list(ref.results.node['head'].index)
+            # a rescued step was solved from another starting point (or by another method): on worlds whose solution is not unique or is
+            # ill-conditioned w.r.t. the residual tolerance (status logic of pumps / valves / check valves, PDD, a power pump's second
+            # root) the run may legitimately continue on another trajectory.  The statement asks for well-formed tables and, before the
+            # rescued step, the same rows; equality afterwards is checked only where the solution is unique and well-conditioned.
+            fragile = (scn['options'].get('demand_model') == 'PDD' or any(l['type'] in ('pump', 'valve') or l.get('cv') for l in scn['links'])
+                       or fr['backup'] == 'fsolve')
+            if fired and out.results.error_code is not None and fragile:
+                # the run failed naturally later on its own trajectory: it said so; nothing further to compare
+                bump(c, 'rescued.failed_later_on_fragile_world')
+                if not any(('did not converge' in w) or ('Exceeded maximum number of trials' in w) for w in out.warnings):
+                    viol.append(V('failure.no_warning', label, 'error_code set without a warning'))
+                return viol + oracles.tables_wellformed(out.results, scn, accepted_times=[s_['t'] for s_ in rec.steps])
             if out.results.error_code is not None:
                 viol.append(V('rescued.error_code', label, 'error_code %r although the step was solved' % (out.results.error_code,)))
+            if fired and fragile:
+                bump(c, 'rescued.values_after_rescue_not_compared')
+                viol += oracles.tables_wellformed(out.results, scn, accepted_times=[s_['t'] for s_ in rec.steps])
+                before = [t_ for t_ in full if t_ < mine[k]['t']]
+                if not viol and before:
+                    viol += oracles.compare_tables(out.results, ref.results, before, label='rescued.prefix')
+                return viol
             viol += oracles.tables_wellformed(out.results, scn, expect_times=full)
             if not viol:
                 viol += oracles.compare_tables(out.results, ref.results, full, label='rescued', keys=oracles.SLACK_KEYS,
